@@ -114,3 +114,18 @@ PARTS = {
     ],
   },
 }
+
+# Opt-in instances, NOT collected by checks/_agg.py: concat with a source that holds an accepted element followed by one
+# the element type refuses.  Pinned tree: Array counts a never-constructed slot (label .../unconstructed-element-counted,
+# repaired by proposed/seq-alias-concat-self.patch); both kinds keep the accepted prefix (label .../partially-appended,
+# proposed known finding).  See proposed/seq-alias-concat-self.md.
+OPTIN = {
+  'C05': [
+    S('array-picky-concat', 'base', 'prop=C05', 'kind=array', 'elem=picky', 'maxlen=3', 'poisonconcat=1'),
+    S('list-picky-concat', 'base', 'prop=C05', 'kind=list', 'elem=picky', 'maxlen=3', 'poisonconcat=1'),
+  ],
+  'C12': [
+    S('array-picky-concat', 'base', 'prop=C12', 'kind=array', 'elem=picky', 'maxlen=3', 'poisonconcat=1'),
+    S('list-picky-concat', 'base', 'prop=C12', 'kind=list', 'elem=picky', 'maxlen=3', 'poisonconcat=1'),
+  ],
+}
